@@ -187,6 +187,30 @@ func netPath(r *lib.Run, idx int) {
 			markers = append(markers, h)
 		}
 	}
+	// a marker is a valid item that does get stored and offered onward; what happens to a key is attributed to the
+	// item under judgement, so no marker may share its key with one (a cross-key item borrows the key of another
+	// honest item of the same trie, which can be a marker)
+	itemKey := map[string]bool{}
+	for _, it := range items {
+		itemKey[string(it.key)] = true
+	}
+	{
+		kept := markers[:0]
+		for _, m := range markers {
+			if itemKey[string(encKey(m.key))] {
+				r.Count("netpath_markers_dropped_key_shared_with_an_item", 1)
+				continue
+			}
+			kept = append(kept, m)
+		}
+		markers = kept
+	}
+	// the second half of the kept-back pairs is the material of the multi-item batches further down
+	var freshPool []*kase
+	if len(markers) > 40 {
+		half := len(markers) / 2
+		freshPool, markers = markers[half:], markers[:half]
+	}
 	mi := 0
 	const batch = 12
 	judged, refused := 0, 0
@@ -266,8 +290,11 @@ func netPath(r *lib.Run, idx int) {
 	for _, it := range items {
 		usedKey[string(it.key)] = true
 	}
-	for _, h := range w.honest {
-		if !isNodeType(h.typ) || usedKey[string(encKey(h.key))] {
+	for _, m := range markers {
+		usedKey[string(encKey(m.key))] = true // also the markers still to come: they will be stored
+	}
+	for _, h := range freshPool {
+		if usedKey[string(encKey(h.key))] {
 			continue
 		}
 		for _, class := range []string{"path-nibble-changed", "path-truncated", "path-extended", "cross-key-same-trie", "address-hash-flipped"} {
